@@ -23,7 +23,7 @@ func init() {
 			`R05.6 every success return of the per-file check has passed a FILE wound emission or the copy of the file into the validating writer (no shortcut declares content valid unseen). ` +
 			`R05.8 Wound.Healthy() answers true only where Kind == CLOSED_FILE holds (every consumer skips healthy wounds). ` +
 			`R05.3 also: on each outcome of the size test after the copy every path to a success return emits a FILE wound and the wound made there spans [copied, size) resp. [size, copied) with those very values; R18.7 (shared) each file's hash group ends with the file's last block. ` +
-			`R05.9 HasWounds answers from a field that Do sets (a flag, or a counter increased by a positive constant) on every path from the outcome !Healthy(). R18.2 (shared) the validating pool's block index advances once on every accepting path of the validate closure (in wound mode it decides which range a wound names). R18.8 (shared) the strong hash the hashing context returns is computed in that call, never taken out of a field, captured or package variable, or map. NOT decided: that wounds cover every differing offset (block-size arithmetic, drip boundaries), interplay of last-block and size checks.`,
+			`R05.9 HasWounds answers from a field that Do sets (a flag, or a counter increased by a positive constant) on every path from the outcome !Healthy(). R18.2 (shared) the validating pool's block index advances once on every accepting path of the validate closure (in wound mode it decides which range a wound names). R18.8 (shared) the strong hash the hashing context returns is computed in that call, never taken out of a field, captured or package variable, or map. R05.10 the aggregator merges an incoming wound into the pending one only behind a test that fixes the incoming kind to ONE constant - the same that guards every assignment of the pending wound - or with the two kinds compared equal. NOT decided: that wounds cover every differing offset (block-size arithmetic, drip boundaries), interplay of last-block and size checks.`,
 		Assumptions: []string{"wound emission sites are sends (plain or in a select) on ValidatorContext.Wounds, directly or through a local closure that sends unconditionally"},
 		Run:         runC05,
 	})
@@ -203,6 +203,7 @@ func runC05(c *core.Ctx) {
 
 	ruleDeviationTable(c, kinds)
 	ruleAggregationLosesNothing(c, kinds)
+	ruleMergedWoundsShareAKind(c, "R05.10")
 	ruleBlockIndexAdvances(c)
 	ruleStrongHashIsComputedEachTime(c, "R18.8")
 }
